@@ -320,7 +320,8 @@ SysStep == \/ \E w \in Writers : Absorb(w)
            \/ Detect \/ WatcherFire \/ ResumeCut \/ TakeSnapshot \/ (\E q \in s.resendQ : ResendNext(q))
 \* a cooperative broker acknowledges what it received on the current connection and has not acknowledged there yet
 \* (a retransmitted chunk is acknowledged again): every chunk the client is still waiting for
-AckAllUnacked == LET S == RecvdOn(s, s.conn) \cap (s.wait \cup { c[1] : c \in s.awaiting }) IN S # {} /\ BAckFair(S)
+\* (the senders that actually wait: `wait` may keep the map entry of a sender that has gone - such a result is simply dropped)
+AckAllUnacked == LET S == RecvdOn(s, s.conn) \cap ({ c[1] : c \in s.awaiting } \cup (IF s.resendCur # 0 THEN {s.resendCur} ELSE {})) IN S # {} /\ BAckFair(S)
 FairNext == Next \/ AckAllUnacked
 FairSpec == Init /\ [][FairNext]_vars /\ WF_vars(SysStep) /\ WF_vars(Redial) /\ WF_vars(ResumeOk) /\ WF_vars(AckAllUnacked)
 \* once failures have stopped, every cut chunk has reached the broker -- unless the stream was reported closed
